@@ -48,6 +48,7 @@ var specs = []pkgSpec{
 	{"github.com/aukilabs/hagall/...", true, true},
 	{"github.com/aukilabs/hagall-common/websocket", true, true},
 	{"golang.org/x/net/websocket", false, false},
+	{"github.com/aukilabs/hagall-common/hdsclient", false, false}, // T1: the lock around the server secret (C15 under re-registration)
 }
 
 func main() {
